@@ -100,6 +100,11 @@ func jsonSkipped(st *types.Struct, i int) bool {
 }
 
 func (m *machine) flatten(t types.Type, v value, out *[]atom, depth int) {
+	if jp, ok := t.(jsonPlain); ok {
+		t = jp.Type
+	} else if m.jsonHook(t, "MarshalJSON") != nil || m.jsonHook(t, "MarshalText") != nil {
+		unsupp("encoding of %v, which defines its own MarshalJSON / MarshalText (not modelled)", t)
+	}
 	if depth > 40 {
 		unsupp("encoding of a cyclic or too deep value")
 	}
@@ -271,6 +276,46 @@ func (m *machine) encode(t types.Type, v value) value {
 
 // dropUnexported zeroes fields json would not carry.
 func (m *machine) jsonProject(t types.Type, v value, depth int) value {
+	if hook := m.jsonHook(t, "UnmarshalJSON"); hook != nil && m.jsonHookDepth < 4 {
+		// the type decodes itself: run its real UnmarshalJSON on an encoding
+		// token of the value (the method sees the exported fields only)
+		m.jsonHookDepth++
+		cell := newCell(zero(t))
+		tokBytes := m.encode(jsonPlain{t}, m.jsonProjectPlain(t, v, depth))
+		m.callSSA(m.curFrame, 0, hook, []value{cell, tokBytes}, nil)
+		m.jsonHookDepth--
+		return *cell
+	}
+	return m.jsonProjectPlain(t, v, depth)
+}
+
+// jsonPlain wraps a type whose own UnmarshalJSON must not be looked up again
+// (the token handed to the hook is decoded structurally).
+type jsonPlain struct{ types.Type }
+
+// jsonHook: the SSA body of method `name` ([]byte) error of *T when T is a
+// named type of the repository that defines it.
+func (m *machine) jsonHook(t types.Type, name string) *ssa.Function {
+	named, ok := t.(*types.Named)
+	if !ok || named.Obj().Pkg() == nil || !strings.HasPrefix(named.Obj().Pkg().Path(), modPath) {
+		return nil
+	}
+	pt := types.NewPointer(named)
+	sel := m.eng.prog.MethodSets.MethodSet(pt).Lookup(named.Obj().Pkg(), name)
+	if sel == nil {
+		return nil
+	}
+	fn := m.eng.prog.MethodValue(sel)
+	if fn == nil || len(fn.Blocks) == 0 {
+		return nil
+	}
+	return fn
+}
+
+func (m *machine) jsonProjectPlain(t types.Type, v value, depth int) value {
+	if jp, ok := t.(jsonPlain); ok {
+		t = jp.Type
+	}
 	switch u := t.Underlying().(type) {
 	case *types.Struct:
 		st := v.(structure)
@@ -776,11 +821,22 @@ func cryptoStub(m *machine, fn *ssa.Function, name, pkg string) intrinsic {
 			tok := o.data.(*encToken)
 			itf := a[1].(iface)
 			pt, ok := itf.t.Underlying().(*types.Pointer)
-			if !ok || !types.Identical(pt.Elem(), tok.typ) {
-				unsupp("json.Unmarshal into %v of an encoding of %v", itf.t, tok.typ)
+			tokT := tok.typ
+			plain := false
+			if jp, isPlain := tokT.(jsonPlain); isPlain {
+				tokT, plain = jp.Type, true
+			}
+			if !ok || !(types.Identical(pt.Elem(), tokT) || (plain && types.Identical(pt.Elem().Underlying(), tokT.Underlying()))) {
+				unsupp("json.Unmarshal into %v of an encoding of %v", itf.t, tokT)
 			}
 			dst := itf.v.(*value)
-			store(tok.typ, dst, m.jsonProject(tok.typ, deepCopy(tok.val, 0), 0))
+			m.curFrame = c
+			if plain && !types.Identical(pt.Elem(), tokT) {
+				// `type plain T` inside T's UnmarshalJSON: structural decoding
+				store(pt.Elem(), dst, m.jsonProjectPlain(pt.Elem(), deepCopy(tok.val, 0), 0))
+				return iface{}
+			}
+			store(pt.Elem(), dst, m.jsonProject(pt.Elem(), deepCopy(tok.val, 0), 0))
 			return iface{}
 		}
 	case "encoding/json.Marshal":
@@ -824,6 +880,7 @@ func cryptoStub(m *machine, fn *ssa.Function, name, pkg string) intrinsic {
 				}
 				unsupp("Unmarshal into %v of an encoding of %v", p.Elem(), tok.typ)
 			}
+			m.curFrame = c
 			store(tok.typ, dst, m.jsonProject(tok.typ, deepCopy(tok.val, 0), 0))
 			// a type whose Unmarshal re-derives fields the encoding does not carry
 			// (peers.PeerSet: the encoding holds the Peers only, initMaps rebuilds
